@@ -1,10 +1,91 @@
 (* C12 - layout and comments never change the result. *)
 From Coq Require Import String Ascii List Bool Arith.
-From Wrap Require Import Base.Str Syntax.Ast Parse.Peg Parse.PegProofs Parse.Build Parse.Spec.
+From Wrap Require Import Base.Str Syntax.Ast Inst.Model Parse.Peg Parse.Build Parse.Spec Parse.Layout Parse.LayoutModule.
 From Wrap Require gen.Grammar.
 Import ListNotations.
 Open Scope string_scope.
 
+(* tie: the grammar regenerated from the live pyparsing objects is the one below; its two hand-modelled scanners
+   (DEFAULT_ARG, the comment expression) are unchanged *)
 Theorem C12_grammar_is_spec : Grammar.grammar = spec_grammar.
 Proof. vm_compute. reflexivity. Qed.
 Print Assumptions C12_grammar_is_spec.
+Theorem C12_comment_is_modelled : Grammar.comment_fingerprint = comment_expected.
+Proof. reflexivity. Qed.
+Print Assumptions C12_comment_is_modelled.
+
+(* Two texts have the same skeleton when they consist of the same characters outside white space and comments, in
+   the same order, with filler runs - of any length >= 1 and any content: blanks, tabs, line breaks, CR LF, /* */ and
+   // comments holding braces, quotes, semicolons, keywords - at the same places.
+   For EVERY grammar over pyparsing's terminals, and so for the one of gtwrap.interface_parser: if the parse of the
+   first text never reaches a default value, an #include path or a two-word keyword whose words are separated by
+   filler (strict_parse answers), then Module.parseString gives the same result for both texts. *)
+Theorem C12_layout_independent : forall text text' k,
+  skeleton text = Some k -> skeleton text' = Some k ->
+  strict_parse spec_grammar text <> NoFuel ->
+  parse_module spec_grammar text' <> Unsupported "fuel" ->
+  parse_module spec_grammar text = parse_module spec_grammar text'.
+Proof. exact (parse_module_layout spec_grammar). Qed.
+Print Assumptions C12_layout_independent.
+
+(* the same for any grammar and any start expression, at the level of match trees *)
+Theorem C12_layout_independent_generic : forall g e s s' k f f', Skel s k -> Skel s' k ->
+  strict g f e {| pk := false; rest := s |} <> NoFuel ->
+  interp g f' e {| pk := false; rest := s' |} <> NoFuel ->
+  same_answer (interp g f e {| pk := false; rest := s |}) (interp g f' e {| pk := false; rest := s' |}).
+Proof. exact layout_independent. Qed.
+Print Assumptions C12_layout_independent_generic.
+
+(* Full statement (every pair of texts with one skeleton) refuted, three ways; each is a recorded finding. *)
+Definition C12_full : Prop := forall text text' k,
+  skeleton text = Some k -> skeleton text' = Some k -> parse_module spec_grammar text = parse_module spec_grammar text'.
+
+Theorem C12_refuted_two_word_keyword : ~ C12_full.
+Proof.
+  intros H. specialize (H "void f(unsigned char x);" "void f(unsigned  char x);").
+  vm_compute in H. specialize (H _ eq_refl eq_refl). discriminate H.
+Qed.
+Print Assumptions C12_refuted_two_word_keyword.
+
+Theorem C12_refuted_comment_glued_to_default : ~ C12_full.
+Proof.
+  intros H. specialize (H "void f(int x = 3 /* c */);" "void f(int x = 3/* c */);").
+  vm_compute in H. specialize (H _ eq_refl eq_refl). discriminate H.
+Qed.
+Print Assumptions C12_refuted_comment_glued_to_default.
+
+Theorem C12_refuted_include_blanks : ~ C12_full.
+Proof.
+  intros H. specialize (H "#include <a.h /**/>" "#include <a.h  >").
+  vm_compute in H. specialize (H _ eq_refl eq_refl). discriminate H.
+Qed.
+Print Assumptions C12_refuted_include_blanks.
+
+(* non-vacuity (gaps of layout_a refilled with line breaks, tabs and comments holding braces, quotes, semicolons and
+   comment openers): templates with instantiation lists, nested template arguments, namespaces, classes with every kind of
+   member; comments holding braces, quotes and a comment opener *)
+Definition layout_a : string :=
+  "namespace ns { template<T = {A, ns::B<C>}> virtual class K : Base<T> { K(const T& x, std::vector<ns::B<T*>> v); static T* make(int n); void f() const; pair<T, int> g(K@ k); }; typedef ns::B<A> BA; }".
+Definition layout_b : string :=
+  "namespace
+  ns // class X {};
+   {/* // */template<T
+=// it's a {
+{A, // class X {};
+   ns::B<C>}>	virtual // class X {};
+   class  K // class X {};
+   : Base<T>	{/* } */K(const/* // */T&
+  x,
+  std::vector<ns::B<T*>>	v);/* // */static/* // */T*	make(int /* ""; */ n);
+void
+  f()
+const;/* // */pair<T, /* ""; */ int> g(K@  k);
+}; // class X {};
+   typedef ns::B<A>/* } */BA; }".
+Example C12_nonvacuous :
+  skeleton layout_a <> None /\ skeleton layout_a = skeleton layout_b /\ layout_a <> layout_b /\
+  strict_parse spec_grammar layout_a <> NoFuel /\
+  (exists ds, parse_module spec_grammar layout_b = Ok ds /\ length ds = 1).
+Proof.
+  vm_compute. repeat split; try discriminate. eexists. split; reflexivity.
+Qed.
